@@ -30,7 +30,9 @@ func (vc *VC) reset(dry bool) {
 	vc.strlits, vc.typetags = map[string]string{}, map[string]int{}
 	vc.heapOut, vc.reach, vc.edgeTerm = map[int]Heap{}, map[int]string{}, map[[2]int]string{}
 	vc.written, vc.wroteAll = map[int]map[string]bool{}, map[int]bool{}
+	vc.nonFresh, vc.freshRoots = map[int]map[string]bool{}, map[int]map[string][]int{}
 	vc.defers, vc.inputs, vc.unsupp = nil, nil, nil
+	vc.useRoot = false
 	vc.trusted = map[string]bool{}
 }
 
@@ -54,6 +56,7 @@ func (vc *VC) Generate() (err error) {
 		vc.run()
 		for _, li := range vc.loops {
 			li.mods = map[string]bool{}
+			li.freshOnly = map[string]bool{}
 			for b := range li.blocks {
 				p, ok := vc.rpoPos[b]
 				if !ok {
@@ -65,6 +68,24 @@ func (vc *VC) Generate() (err error) {
 				if vc.wroteAll[p] {
 					li.modAll = true
 				}
+			}
+			for k := range li.mods {
+				ok := true
+				for b := range li.blocks {
+					p, has := vc.rpoPos[b]
+					if !has {
+						continue
+					}
+					if vc.nonFresh[p][k] {
+						ok = false
+					}
+					for _, ab := range vc.freshRoots[p][k] {
+						if !li.blocks[ab] {
+							ok = false
+						}
+					}
+				}
+				li.freshOnly[k] = ok
 			}
 		}
 	}
@@ -268,9 +289,21 @@ func (vc *VC) enterBlock(b *ssa.BasicBlock) {
 					vc.assume(fmt.Sprintf("(>= %s %s)", n, old))
 					continue
 				}
-				vc.havocComp(k, c.sort)
+				pre := vc.getComp(k, c.sort)
+				topPre := vc.getComp("top", "Int")
+				if tm, ok := merged.m["top"]; ok {
+					topPre = tm
+				} else {
+					topPre = vc.getCompIn(merged, "top", "Int")
+				}
+				nw := vc.havocComp(k, c.sort)
+				if li.freshOnly[k] && strings.HasPrefix(c.sort, "(Array Int ") {
+					vc.useRoot = true
+					vc.assume(fmt.Sprintf("(forall ((r Int)) (! (=> (and (< 0 (root r)) (<= (root r) %s)) (= (select %s r) (select %s r))) :pattern ((select %s r))))", topPre, nw, pre, nw))
+				}
 			}
 		}
+		vc.autoLocalSlices(li, b, preds)
 		for _, ins := range b.Instrs {
 			if ph, ok := ins.(*ssa.Phi); ok {
 				vc.havocVal(ph)
@@ -350,7 +383,9 @@ func (vc *VC) instr(ins ssa.Instruction) {
 		r := vc.newRef()
 		elem := x.Type().Underlying().(*types.Pointer).Elem()
 		vc.vals[x] = Term{S: r, Sort: "Int", T: x.Type()}
+		vc.writeRoot = x
 		vc.zeroInit(r, elem)
+		vc.writeRoot = nil
 	case *ssa.FieldAddr:
 		p := vc.val(x.X)
 		st := x.X.Type().Underlying().(*types.Pointer).Elem()
@@ -385,7 +420,9 @@ func (vc *VC) instr(ins ssa.Instruction) {
 			}
 			a = vc.pointeeAddr(p.S, x.Addr.Type())
 		}
+		vc.writeRoot = allocRoot(x.Addr)
 		vc.storeAddr(a, val.S)
+		vc.writeRoot = nil
 	case *ssa.Field:
 		sv := vc.val(x.X)
 		st := x.X.Type().Underlying().(*types.Struct)
@@ -420,14 +457,18 @@ func (vc *VC) instr(ins ssa.Instruction) {
 			es := vc.sortOf(elem)
 			s := "(Array Int (Array Int " + es + "))"
 			k := elemComp(elem)
+			vc.writeRoot = x
 			vc.setComp(k, s, fmt.Sprintf("(store %s %s ((as const (Array Int %s)) %s))", vc.getComp(k, s), r, es, vc.zero(elem)))
+			vc.writeRoot = nil
 		}
 		vc.setVal(x, fmt.Sprintf("(mk_slice %s 0 %s %s)", r, l.S, c.S))
 	case *ssa.MakeMap:
 		r := vc.newRef()
 		mt := x.Type().Underlying().(*types.Map)
 		dk, ds, _, _ := vc.mapComps(mt)
+		vc.writeRoot = x
 		vc.setComp(dk, ds, fmt.Sprintf("(store %s %s ((as const (Array %s Bool)) false))", vc.getComp(dk, ds), r, vc.sortOf(mt.Key())))
+		vc.writeRoot = nil
 		vc.vals[x] = Term{S: r, Sort: "Int", T: x.Type()}
 	case *ssa.MakeInterface:
 		vc.makeInterface(x)
@@ -460,10 +501,12 @@ func (vc *VC) instr(ins ssa.Instruction) {
 		vc.safe("nil-map-store", fmt.Sprintf("(not (= %s 0))", m.S), x.Pos())
 		dk, ds, vk, vs := vc.mapComps(mt)
 		k, v := vc.val(x.Key), vc.val(x.Value)
+		vc.writeRoot = allocRoot(x.Map)
 		d := vc.getComp(dk, ds)
 		vc.setComp(dk, ds, fmt.Sprintf("(store %s %s (store (select %s %s) %s true))", d, m.S, d, m.S, k.S))
 		vv := vc.getComp(vk, vs)
 		vc.setComp(vk, vs, fmt.Sprintf("(store %s %s (store (select %s %s) %s %s))", vv, m.S, vv, m.S, k.S, v.S))
+		vc.writeRoot = nil
 		vc.mapStamp(x, mt, m.S, k.S)
 	case *ssa.Range:
 		vc.vals[x] = Term{S: vc.val(x.X).S, Sort: vc.sortOf(x.X.Type()), T: x.X.Type()}
@@ -531,6 +574,14 @@ func (vc *VC) isKnownNonNil(v ssa.Value) bool {
 	case *ssa.FieldAddr, *ssa.IndexAddr:
 		_ = x
 		return true
+	case *ssa.UnOp:
+		// package-level logger variables are initialised at package init and never reassigned
+		if g, ok := x.X.(*ssa.Global); ok {
+			if n, ok := derefNamed(g.Type().Underlying().(*types.Pointer).Elem()); ok && n.Obj().Pkg() != nil && isNoopCallee(n.Obj().Pkg().Path()+"/") {
+				vc.trusted["package-level logger variables are non-nil"] = true
+				return true
+			}
+		}
 	}
 	return false
 }
